@@ -168,7 +168,10 @@ func genWrap(g *core.G) {
 	emitNew := func(recv sx.Sexp, args []sx.Sexp) {
 		g.Emit("newm " + recv.String() + " " + sx.T("args", args...).String())
 	}
-	emitCo := func(t sx.Sexp, v sx.Sexp) { g.Emit("coerce " + t.String() + " " + v.String()) }
+	emitCo := func(t sx.Sexp, v sx.Sexp) {
+		g.Emit("coerce " + t.String() + " " + v.String())
+		g.Emit("cancoerce " + t.String() + " " + v.String())
+	}
 
 	// ---- newm: wrappers (no constructor under their own name) and Init around them ----
 	inner := []*ty{tInt, tInt05, tFlt, tBool, tArrInt, tNum}
